@@ -26,6 +26,7 @@ import (
 	authtypes "github.com/cosmos/cosmos-sdk/x/auth/types"
 	sdkvesting "github.com/cosmos/cosmos-sdk/x/auth/vesting/types"
 	banktypes "github.com/cosmos/cosmos-sdk/x/bank/types"
+	stakingtypes "github.com/cosmos/cosmos-sdk/x/staking/types"
 	"github.com/ethereum/go-ethereum/common"
 	"github.com/ethereum/go-ethereum/crypto"
 
@@ -792,7 +793,7 @@ func lqGenPure(r *Rng, big200 bool) lqPureIn {
 
 // ================================================================ histories
 type lqOp struct {
-	Op    string `json:"op"` // mkvest fund params liq redeem xfer
+	Op    string `json:"op"` // mkvest fund params liq redeem xfer | probe | delegate clawback (outside the Coq model)
 	A     int    `json:"a,omitempty"`
 	Start int64  `json:"start,omitempty"`
 	Lock  []lqP  `json:"lock,omitempty"`
@@ -804,7 +805,8 @@ type lqOp struct {
 	From  int    `json:"from,omitempty"`
 	To    int    `json:"to,omitempty"`
 	D     int    `json:"d,omitempty"`
-	Via   string `json:"via,omitempty"` // xfer only: "send" (bank MsgSend) or "multisend" (bank MsgMultiSend); not part of the model
+	Via   string `json:"via,omitempty"` // xfer: "send" (bank MsgSend) or "multisend" (bank MsgMultiSend), not part of the model; mkvest: "msg" = by MsgConvertIntoVestingAccount (outside the model)
+	Ts    []int64 `json:"ts,omitempty"` // probe only: the block time advances through these values
 }
 
 type lqHistIn struct {
@@ -828,6 +830,12 @@ func (op lqOp) coq() string {
 		return fmt.Sprintf("(Redeem %s %s %s %s %s)", coqZi(op.T), coqN(op.From), coqN(op.To), coqN(op.D), coqZ(op.x()))
 	case "xfer":
 		return fmt.Sprintf("(Xfer %s %s %s %s)", coqN(op.From), coqN(op.To), coqN(op.D), coqZ(op.x()))
+	case "probe":
+		ts := make([]string, 0, len(op.Ts))
+		for _, t := range op.Ts {
+			ts = append(ts, coqZi(t))
+		}
+		return fmt.Sprintf("(Probe %s)", coqList(ts))
 	}
 	panic("bad op " + op.Op)
 }
@@ -835,11 +843,11 @@ func (op lqOp) coq() string {
 func (op lqOp) valid() error {
 	okA := func(a int) bool { return a >= 0 && a < lqNA }
 	switch op.Op {
-	case "mkvest", "fund":
+	case "mkvest", "fund", "delegate", "clawback":
 		if !okA(op.A) {
 			return fmt.Errorf("account %d out of range", op.A)
 		}
-	case "params":
+	case "params", "probe":
 	case "liq", "redeem", "xfer":
 		if !okA(op.From) || !okA(op.To) || op.D < 0 {
 			return fmt.Errorf("account / denom out of range")
@@ -871,6 +879,8 @@ type lqSnap struct {
 	HoldE   [][lqNA]*big.Int // ERC20 tokens of the pair's contract
 	Supply  []*big.Int
 	Stray   string
+	Deleg   [lqNA]*big.Int // bonded + unbonding tokens of the account (staking keeper)
+	DelRec  [lqNA]*big.Int // DelegatedFree + DelegatedVesting recorded on the vesting account
 }
 
 func (s *lqSnap) hold(d, a int) *big.Int {
@@ -895,6 +905,8 @@ func lqSnapshot(e *Env) *lqSnap {
 	bk := e.App.BankKeeper
 	for a := 0; a < lqNA; a++ {
 		s.Bank[a] = bk.GetBalance(e.Ctx, addrN(a), lqDenom).Amount.BigInt()
+		s.Deleg[a] = e.App.StakingKeeper.GetDelegatorBonded(e.Ctx, addrN(a)).Add(e.App.StakingKeeper.GetDelegatorUnbonding(e.Ctx, addrN(a))).BigInt()
+		s.DelRec[a] = big.NewInt(0)
 		acc := e.App.AccountKeeper.GetAccount(e.Ctx, addrN(a))
 		if acc == nil {
 			stray("account %d disappeared", a)
@@ -918,9 +930,7 @@ func lqSnapshot(e *Env) *lqSnap {
 		for _, p := range va.VestingPeriods {
 			one("a vesting period", p.Amount)
 		}
-		if !va.DelegatedFree.IsZero() || !va.DelegatedVesting.IsZero() {
-			stray("account %d has delegated coins recorded", a)
-		}
+		s.DelRec[a] = va.DelegatedFree.Add(va.DelegatedVesting...).AmountOf(lqDenom).BigInt()
 		s.Accts[a] = &lqAcct{
 			Start: va.StartTime.Unix(), End: va.EndTime,
 			Orig: new(big.Int).Set(va.OriginalVesting.AmountOf(lqDenom).BigInt()),
@@ -1008,9 +1018,10 @@ type lqStepObs struct {
 	Denoms  []lqDenObs   `json:"denoms"`
 	Liq     [][]string   `json:"liq"`    // denom, holder, tokens, of which bank coins
 	Supply  [][]string   `json:"supply"` // denom, supply
+	Locked  [][]string   `json:"locked,omitempty"` // per block time of the op: LockedCoins (aISLM) of the four accounts
 }
 
-func (s *lqSnap) obs(res int, err error) (lqStepObs, string) {
+func (s *lqSnap) obs(res int, err error, rows [][]*big.Int) (lqStepObs, string) {
 	o := lqStepObs{Res: res, Escrow: s.Escrow.String(), Counter: s.Counter, Denoms: []lqDenObs{}, Liq: [][]string{}, Supply: [][]string{}}
 	if err != nil {
 		// the "lesser than %d" message of Liquidate prints a pointer: not canonical
@@ -1047,8 +1058,18 @@ func (s *lqSnap) obs(res int, err error) (lqStepObs, string) {
 			sup = append(sup, fmt.Sprintf("(%s, %s)", coqN(d), coqZ(s.Supply[d])))
 		}
 	}
-	c := fmt.Sprintf("(mkobs %s %s %s %s %s %s %s %s)", coqN(res), coqList(bank), coqList(accts), coqZ(s.Escrow), coqN(s.Counter),
-		coqList(dens), coqList(liq), coqList(sup))
+	lockedRows := []string{}
+	for _, row := range rows {
+		js, cs := []string{}, []string{}
+		for _, v := range row {
+			js = append(js, v.String())
+			cs = append(cs, coqZ(v))
+		}
+		o.Locked = append(o.Locked, js)
+		lockedRows = append(lockedRows, coqList(cs))
+	}
+	c := fmt.Sprintf("(mkobs %s %s %s %s %s %s %s %s %s)", coqN(res), coqList(bank), coqList(accts), coqZ(s.Escrow), coqN(s.Counter),
+		coqList(dens), coqList(liq), coqList(sup), coqList(lockedRows))
 	return o, c
 }
 
@@ -1136,6 +1157,20 @@ func lqApply(e *Env, op lqOp, pre *lqSnap) (int, error) {
 		acc := e.App.AccountKeeper.GetAccount(e.Ctx, addrN(op.A))
 		if _, is := acc.(*vestingtypes.ClawbackVestingAccount); is {
 			return 8, errLqSetup
+		}
+		if op.Via == "msg" {
+			// the real message of x/vesting, signed by a funder of its own (outside the Coq model)
+			if op.T != 0 {
+				e.Ctx = e.Ctx.WithBlockTime(time.Unix(op.T, 0).UTC())
+			}
+			if t := lqTotal(op.Lock); t.Sign() > 0 {
+				if err := testutil.FundAccount(e.Ctx, e.App.BankKeeper, lqFunderAddr, sdk.NewCoins(sdk.NewCoin(lqDenom, math.NewIntFromBigInt(t)))); err != nil {
+					return 9, err
+				}
+			}
+			_, err := e.runMsg(vestingtypes.NewMsgConvertIntoVestingAccount(lqFunderAddr, addrN(op.A), time.Unix(op.Start, 0).UTC(),
+				lqSdkPeriods(op.Lock), lqSdkPeriods(op.Vest), false, false, nil))
+			return lqErrCode(err), err
 		}
 		for _, p := range append(append([]lqP{}, op.Lock...), op.Vest...) {
 			if p.L < 0 || p.A.Sign() < 0 {
@@ -1239,6 +1274,32 @@ func lqApply(e *Env, op lqOp, pre *lqSnap) (int, error) {
 		}
 		write()
 		return 0, nil
+	case "probe":
+		// the block time itself is advanced by lqRunHist, one value after the other
+		return 0, nil
+	case "delegate":
+		if op.T != 0 {
+			e.Ctx = e.Ctx.WithBlockTime(time.Unix(op.T, 0).UTC())
+		}
+		vals := e.App.StakingKeeper.GetAllValidators(e.Ctx)
+		if len(vals) == 0 {
+			return 9, fmt.Errorf("no validator")
+		}
+		_, err := e.runMsg(&stakingtypes.MsgDelegate{DelegatorAddress: addrN(op.A).String(), ValidatorAddress: vals[0].GetOperator().String(),
+			Amount: sdk.Coin{Denom: lqDenom, Amount: math.NewIntFromBigInt(op.x())}})
+		return lqErrCode(err), err
+	case "clawback":
+		if op.T != 0 {
+			e.Ctx = e.Ctx.WithBlockTime(time.Unix(op.T, 0).UTC())
+		}
+		funder := lqModAddr
+		if va, ok := e.App.AccountKeeper.GetAccount(e.Ctx, addrN(op.A)).(*vestingtypes.ClawbackVestingAccount); ok {
+			if f, err := sdk.AccAddressFromBech32(va.FunderAddress); err == nil {
+				funder = f
+			}
+		}
+		_, err := e.runMsg(vestingtypes.NewMsgClawback(funder, addrN(op.A), lqSinkAddr))
+		return lqErrCode(err), err
 	}
 	return 9, fmt.Errorf("bad op")
 }
@@ -1394,6 +1455,24 @@ func lqOracle(op lqOp, res int, pre, post *lqSnap) string {
 		dp, dq := pre.Denoms[op.D], post.Denoms[op.D]
 		if (dp == nil) != (dq == nil) || (dp != nil && (dp.Start != dq.Start || dp.End != dq.End || !lqPsEq(dp.Ps, dq.Ps))) {
 			return "transfer changed the schedule of the denom"
+		}
+	case "probe":
+		if post.Counter != pre.Counter || post.Escrow.Cmp(pre.Escrow) != 0 {
+			return "the passing of time changed counter or escrow"
+		}
+		if m := lqSame(pre, post, true, -1, -1, -1); m != "" {
+			return "the passing of time: " + m
+		}
+	case "delegate", "clawback":
+		// not part of liquid vesting: only that nothing of the liquid-vesting state moves
+		if post.Counter != pre.Counter || post.Escrow.Cmp(pre.Escrow) != 0 {
+			return op.Op + " changed counter or escrow"
+		}
+		if m := lqSame(pre, post, true, op.A, op.A, -1); m != "" {
+			return op.Op + ": " + m
+		}
+		if post.Bank[op.A].Cmp(pre.Bank[op.A]) > 0 {
+			return op.Op + " increased the balance of the account"
 		}
 	}
 	return ""
@@ -1615,6 +1694,10 @@ func lqRunHist(id string, next lqGenFn) Case {
 	tags := map[string]bool{}
 	nLiq, nMove := 0, 0
 	everHeld := map[int]map[int]bool{}
+	tor := newLqTimeOracle(tags)
+	tokensInto := map[int]map[int]int64{} // target -> liquid denom redeemed into it -> the denom's end
+	liquidatedBy := map[int]bool{}
+	outOfModel := false // from the first delegate / clawback op on the history is outside the Coq model
 	for i := 0; ; i++ {
 		op, ok := next(i, pre)
 		if !ok {
@@ -1624,16 +1707,50 @@ func lqRunHist(id string, next lqGenFn) Case {
 		if err := op.valid(); err != nil {
 			return Case{ID: id, Kind: "hist", Input: in, OracleOK: false, OracleMsg: "malformed input: " + err.Error(), Key: id}
 		}
+		if op.Op == "delegate" || op.Op == "clawback" || (op.Op == "mkvest" && op.Via == "msg") {
+			outOfModel = true
+			tags["outside-model-suffix"] = true
+		}
 		res, err := lqApply(e, op, pre)
+		rows := [][]*big.Int{}
+		timeMsg := ""
+		switch op.Op {
+		case "liq", "redeem":
+			rows = append(rows, lqLockedRow(e, op.T))
+		case "probe":
+			for _, t := range op.Ts {
+				e.Ctx = e.Ctx.WithBlockTime(time.Unix(t, 0).UTC())
+				rows = append(rows, lqLockedRow(e, t))
+				if timeMsg == "" {
+					timeMsg = tor.check(e, i, op)
+				}
+			}
+		}
 		post := lqSnapshot(e)
-		o, c := post.obs(res, err)
+		if !outOfModel {
+			for a := 0; a < lqNA; a++ {
+				if post.DelRec[a].Sign() != 0 && post.Stray == "" {
+					post.Stray = fmt.Sprintf("account %d has delegated coins recorded", a)
+				}
+			}
+		}
+		o, c := post.obs(res, err, rows)
 		obsAll = append(obsAll, o)
-		steps = append(steps, fmt.Sprintf("(%s,\n    %s)", op.coq(), c))
+		if !outOfModel {
+			steps = append(steps, fmt.Sprintf("(%s,\n    %s)", op.coq(), c))
+		}
+		if res == 0 {
+			tor.record(i, op, pre, post, e.Ctx.BlockTime().Unix())
+		}
+		if op.Op != "probe" && timeMsg == "" {
+			timeMsg = tor.check(e, i, op)
+		}
 		tags[fmt.Sprintf("%s:%d", op.Op, res)] = true
 		if res == 0 {
 			switch op.Op {
 			case "liq":
 				nLiq++
+				liquidatedBy[op.From] = true
 				if op.From == op.To {
 					tags["liq:to-self"] = true
 				}
@@ -1669,6 +1786,47 @@ func lqRunHist(id string, next lqGenFn) Case {
 				if op.From == op.To {
 					tags["redeem:to-self"] = true
 				}
+				if dp != nil {
+					// the target's own end against the token's, own locked coins, earlier tokens in the same account
+					if pr != nil {
+						switch {
+						case pr.End < dp.End:
+							tags["redeem:target-ends-earlier"] = true
+						case pr.End == dp.End:
+							tags["redeem:target-ends-same"] = true
+						default:
+							tags["redeem:target-ends-later"] = true
+						}
+						if lqEv(pr.Start, pr.Lock, op.T).Cmp(pr.Orig) < 0 {
+							tags["redeem:target-has-locked-coins"] = true
+						} else {
+							tags["redeem:target-nothing-locked"] = true
+						}
+						if pre.Deleg[op.To].Sign() > 0 {
+							tags["redeem:target-delegating"] = true
+						}
+					}
+					for d0, end0 := range tokensInto[op.To] {
+						if d0 == op.D {
+							continue
+						}
+						switch {
+						case end0 < dp.End:
+							tags["redeem:longer-token-after-shorter"] = true
+						case end0 > dp.End:
+							tags["redeem:shorter-token-after-longer"] = true
+						default:
+							tags["redeem:second-token-same-end"] = true
+						}
+					}
+					if tokensInto[op.To] == nil {
+						tokensInto[op.To] = map[int]int64{}
+					}
+					tokensInto[op.To][op.D] = dp.End
+					if liquidatedBy[op.To] {
+						tags["redeem:into-a-liquidator"] = true
+					}
+				}
 				if lqAcctEq(pr, post.Accts[op.To]) {
 					tags["redeem:all-past"] = true
 				}
@@ -1698,6 +1856,8 @@ func lqRunHist(id string, next lqGenFn) Case {
 		if oracleMsg == "" {
 			if m := lqOracle(op, res, pre, post); m != "" {
 				oracleMsg = fmt.Sprintf("step %d (%s): %s", i, op.Op, m)
+			} else if timeMsg != "" {
+				oracleMsg = fmt.Sprintf("step %d (%s): %s", i, op.Op, timeMsg)
 			}
 		}
 		pre = post
@@ -1719,6 +1879,9 @@ func lqRunHist(id string, next lqGenFn) Case {
 		tags["amt-scale:2^20"] = true
 	}
 	tags[fmt.Sprintf("liq-ok=%d", nLiq)] = true
+	if tor.checks > 0 {
+		tags["timecheck:run"] = true
+	}
 	kb, _ := json.Marshal(in.Ops)
 	return Case{
 		ID: id, Kind: "hist", Input: in, Obs: obsAll,
@@ -2020,6 +2183,7 @@ func (g *lqGen) next(i int, s *lqSnap) (lqOp, bool) {
 
 // ---------------------------------------------------------------- driver
 func liquidDriver(cfg Config, out *Out) error {
+	lqStrict = cfg.Args["strict"] == "1"
 	if cfg.Replay != "" {
 		i := 0
 		return readReplayInputs(cfg.Replay, func(raw json.RawMessage) error {
@@ -2073,8 +2237,27 @@ func liquidDriver(cfg Config, out *Out) error {
 		out.Emit(lqRunPure(fmt.Sprintf("s%d-p%d", cfg.Seed, i), lqGenPure(r.Fork(), cfg.Args["big"] == "1")))
 	}
 	for i := 0; i < nHist; i++ {
+		id := fmt.Sprintf("s%d-h%d", cfg.Seed, i)
+		if i%2 == 1 && cfg.Args["scen"] != "0" || cfg.Args["scen"] == "1" {
+			// several tokens with different ends redeemed into one account, probes over time
+			out.Emit(lqRunHist(id, newLqScen(r.Fork()).next))
+			continue
+		}
 		g := newLqGen(r.Fork())
-		out.Emit(lqRunHist(fmt.Sprintf("s%d-h%d", cfg.Seed, i), g.next))
+		maxT, probed := lqT0, false
+		out.Emit(lqRunHist(id, func(i int, s *lqSnap) (lqOp, bool) {
+			if op, ok := g.next(i, s); ok {
+				if op.T > maxT {
+					maxT = op.T
+				}
+				return op, true
+			}
+			if probed {
+				return lqOp{}, false
+			}
+			probed = true // the block time moves on over every event and end of the final state
+			return lqOp{Op: "probe", Ts: lqProbeTimes(s, nil, maxT, g.r, 24, true)}, true
+		}))
 	}
 	return nil
 }
